@@ -1198,3 +1198,138 @@ pub unsafe fn bad_string_sweep() -> Result<u64, String> {
     }
     Ok(calls)
 }
+
+/// Borrowed entry pointers stay valid — and keep pointing at the same entry — across every
+/// read-only call on their container (the protocol: "while the container is alive and
+/// unmodified"); every returned string is a fresh allocation that can be destroyed on its own.
+/// Returns the number of calls made.
+pub unsafe fn borrow_sweep() -> Result<u64, String> {
+    let mut calls = 0u64;
+    let _ = take_error();
+    // a list of five, a dict of five (from text), a grid of five rows
+    let list = opt_box(haystack_value_from_zinc_string(cs(b"[1,\"two\",@three,{k:4},[5,6]]").as_ptr()));
+    let dict = opt_box(haystack_value_from_zinc_string(cs(b"{a:1,b:\"two\",siteRef:@three,d:{k:4},e:[5,6]}").as_ptr()));
+    let grid = opt_box(haystack_value_from_zinc_string(cs(b"ver:\"3.0\"\na,b\n1,2\n3,4\n5,6\n7,8\n9,10\n").as_ptr()));
+    let out = Box::into_raw(haystack_value_init());
+    if list.is_null() || dict.is_null() || grid.is_null() {
+        return Err("borrow sweep: set-up values do not decode".into());
+    }
+    let result = (|| -> Result<(), String> {
+        let want_list: Vec<Value> = match &*list {
+            Value::List(l) => l.clone(),
+            _ => return Err("not a list".into()),
+        };
+        let mut ptrs: Vec<*const Value> = vec![];
+        for i in 0..want_list.len() {
+            let mut p: *const Value = std::ptr::null();
+            if haystack_value_get_list_entry_at(list, i, &mut p) != ResultType::TRUE || p.is_null() {
+                return Err(format!("get_list_entry_at({i}) failed"));
+            }
+            ptrs.push(p);
+            calls += 1;
+        }
+        let keys: Vec<&[u8]> = vec![b"a", b"b", b"siteRef", b"d", b"e"];
+        let want_dict: Vec<Value> = match &*dict {
+            Value::Dict(d) => keys.iter().map(|k| d.get(std::str::from_utf8(k).unwrap()).cloned().unwrap()).collect(),
+            _ => return Err("not a dict".into()),
+        };
+        let mut dptrs: Vec<*const Value> = vec![];
+        for k in &keys {
+            let mut p: *const Value = std::ptr::null();
+            if haystack_value_get_dict_entry(dict, cs(k).as_ptr(), &mut p) != ResultType::TRUE || p.is_null() {
+                return Err(format!("get_dict_entry({:?}) failed", String::from_utf8_lossy(k)));
+            }
+            dptrs.push(p);
+            calls += 1;
+        }
+        // every read-only call on the containers, twice; strings destroyed one by one
+        for _ in 0..2 {
+            for h in [list, dict, grid] {
+                for f in [haystack_value_to_zinc_string as unsafe extern "C" fn(*const Value) -> *const c_char, haystack_value_to_json_string] {
+                    let (a, b) = (f(h), f(h));
+                    calls += 2;
+                    if a.is_null() || b.is_null() {
+                        return Err("encoding a container failed".into());
+                    }
+                    if a == b {
+                        return Err("a string getter returned the same pointer twice: destroying both frees it twice".into());
+                    }
+                    haystack_string_destroy(a as *mut c_char);
+                    haystack_string_destroy(b as *mut c_char);
+                }
+                let _ = haystack_value_is_list(h);
+                let _ = haystack_value_is_dict(h);
+                let _ = haystack_value_is_grid(h);
+                let _ = haystack_value_get_list_len(h);
+                let _ = haystack_value_get_dict_len(h);
+                let _ = haystack_value_get_grid_len(h);
+                let _ = take_error();
+                calls += 6;
+            }
+            let _ = haystack_value_get_dict_keys(dict, out);
+            for i in 0..5 {
+                let _ = haystack_value_get_grid_row_at(grid, i, out);
+                let mut p: *const Value = std::ptr::null();
+                let _ = haystack_value_get_list_entry_at(list, 4 - i, &mut p);
+                calls += 2;
+            }
+            let mut p: *const Value = std::ptr::null();
+            let _ = haystack_value_get_dict_entry(dict, cs(b"nope").as_ptr(), &mut p);
+            let _ = haystack_value_get_list_entry_at(list, 99, &mut p);
+            let _ = take_error();
+            // the borrowed pointers still point at their entries
+            for (i, p) in ptrs.iter().enumerate() {
+                if **p != want_list[i] {
+                    return Err(format!("the entry pointer of list element {i} no longer points at it after read-only calls: {:?}", **p));
+                }
+            }
+            for (i, p) in dptrs.iter().enumerate() {
+                if **p != want_dict[i] {
+                    return Err(format!("the entry pointer of dict key {:?} no longer points at it after read-only calls: {:?}", String::from_utf8_lossy(keys[i]), **p));
+                }
+            }
+        }
+        // scalar string getters twice
+        let s = opt_box(haystack_value_from_zinc_string(cs(b"[\"str\",`uri`,@ref \"dis\",^sym,Bin(\"x\"),5kW,2021-07-01T12:00:00-04:00 New_York,\"\"]").as_ptr()));
+        if s.is_null() {
+            return Err("borrow sweep: scalar list does not decode".into());
+        }
+        let getters: Vec<unsafe extern "C" fn(*const Value) -> *const c_char> = vec![
+            haystack_value_get_str_value,
+            haystack_value_get_uri_value,
+            haystack_value_get_ref_value,
+            haystack_value_get_ref_dis,
+            haystack_value_get_symbol_value,
+            haystack_value_get_xstr_type,
+            haystack_value_get_xstr_value,
+            haystack_value_get_number_unit,
+            haystack_value_get_datetime_timezone,
+        ];
+        let mut verdict = Ok(());
+        for i in 0..8usize {
+            let mut p: *const Value = std::ptr::null();
+            let _ = haystack_value_get_list_entry_at(s, i, &mut p);
+            for g in &getters {
+                let (a, b) = (g(p), g(p));
+                calls += 2;
+                let _ = take_error();
+                if !a.is_null() && a == b {
+                    verdict = Err("a scalar string getter returned the same pointer twice".to_string());
+                }
+                if !a.is_null() {
+                    haystack_string_destroy(a as *mut c_char);
+                }
+                if !b.is_null() && b != a {
+                    haystack_string_destroy(b as *mut c_char);
+                }
+            }
+        }
+        haystack_value_destroy(s);
+        verdict
+    })();
+    haystack_value_destroy(list);
+    haystack_value_destroy(dict);
+    haystack_value_destroy(grid);
+    haystack_value_destroy(out);
+    result.map(|_| calls)
+}
